@@ -112,7 +112,8 @@ def _archive(D):
         if mk:
             ctx.probe('infeasible_offers')
         cs.append(mk)
-        offers.append(_Sol(cs, i, float(D.dec('work', ('feat', i), 6))))
+        fv = D.dec('work', ('feat', i), 8)
+        offers.append(_Sol(cs, i, float(fv) if fv < 6 else math.inf))     # crowding distances are often infinite
 
     def fresh():
         return Archive(dominance=EpsilonDominance(epsilons=eps)) if use_eps else Archive(dominance=ParetoDominance())
